@@ -182,6 +182,10 @@ class Twin:
                 return name
         return None
 
+    def pascal_bad(self, n: str) -> bool:
+        pa = "".join(p[:1].upper() + p[1:] for p in n.split("_"))
+        return m_all_underscore(n) or m_cls1(n.lstrip("_")) == "D" or pa in self.kw
+
     # ---- scope level (Model/Names.lean trigScopeMerge / trigScopeSingle) ----
     def typename_clash(self, snake: bool, a: str, b: str) -> bool:
         return (not snake) and ((a == TYPENAME and b != TYPENAME and b.lstrip("_") == TYPENAME_ALIAS)
@@ -322,7 +326,8 @@ def judge_names(ctx: Ctx, st: Optional[LeanStatus], names: Sequence[str], res: R
             m = model[i]
             strig = [[tw.scope_single_trigger(sc, sn, n) is not None for sc in SCOPES] for sn in (False, True)]
             got = {"snake": impl["snake"], "pascal": impl["pascal"], "proc": impl["proc"], "gname": is_g,
-                   "word": bool(WORD_RE.match(n)), "alnum": alnum_of(n), "ok": oks, "trig": trig, "strig": strig}
+                   "word": bool(WORD_RE.match(n)), "alnum": alnum_of(n), "ok": oks, "trig": trig, "strig": strig,
+                   "ptrig": tw.pascal_bad(n)}
             want = {k: m[k] for k in got}
             if got != want and mism < 25:
                 mism += 1
@@ -352,8 +357,17 @@ def judge_names(ctx: Ctx, st: Optional[LeanStatus], names: Sequence[str], res: R
         pa = impl["pascal"]
         if not isinstance(pa, str):
             _fail(res, "raises", None, {"level": "name", "n": n, "fn": "str_to_pascal_case"}, str(pa))
-        elif alnum_of(pa).lower() != alnum_of(n).lower():
-            _fail(res, "letters-not-preserved", None, {"level": "name", "n": n, "fn": "str_to_pascal_case"}, f"{n!r} -> {pa!r}")
+        else:
+            if alnum_of(pa).lower() != alnum_of(n).lower():
+                _fail(res, "letters-not-preserved", None, {"level": "name", "n": n, "fn": "str_to_pascal_case"}, f"{n!r} -> {pa!r}")
+            if _safe(u.str_to_pascal_case, pa) != pa:
+                _fail(res, "pascal-not-idempotent", None, {"level": "name", "n": n, "fn": "str_to_pascal_case"}, f"{n!r} -> {pa!r} -> {_safe(u.str_to_pascal_case, pa)!r}")
+            sigp = out_ok(pa, False)  # the result class of an operation called n
+            if sigp:
+                if tw.pascal_bad(n):
+                    res.count("inside:trigPascalBad")
+                _fail(res, sigp, "trigPascalBad" if tw.pascal_bad(n) else None, {"level": "pascal", "n": n},
+                      f"str_to_pascal_case({n!r}) = {pa!r} (class name of an operation called {n!r})")
         for k, cfg in enumerate(CFGS):
             out = impl["proc"][k]
             inp = {"level": "name", "n": n, "cfg": k}
@@ -629,11 +643,13 @@ def judge_scopes(ctx: Ctx, st: Optional[LeanStatus], batches: List[Tuple[str, bo
     outs = _pmap(_emit_task, [(s, sn, ns) for s, sn, ns in batches], 300.0)
     # the model's answer for every (name) in one go
     model: Dict[str, Any] = {}
+    model_pascal: Dict[str, str] = {}
     scope_model: List[Any] = []
     if st is not None and st.driver_ok:
         uniq = sorted({n for _, _, ns in batches for n in ns})
         for n, m in zip(uniq, common.run_driver(ctx.prop, [{"op": "name", "n": n} for n in uniq], chunk=50000)):
             model[n] = m["scopes"]
+            model_pascal[n] = m["pascal"]
         scope_model = common.run_driver(ctx.prop, [{"op": "scope", "scope": s, "snake": sn, "names": ns, "fixed": FIXED_MODULES}
                                                   for s, sn, ns in batches])
     bad = 0
@@ -680,6 +696,15 @@ def judge_scopes(ctx: Ctx, st: Optional[LeanStatus], batches: List[Tuple[str, bo
         for a, b in zip(names[::7], names[3::7]):
             if a != b and py_of[a] != py_of[b]:
                 pair_checks.append((scope, snake, a, b, False))
+        if scope == "operation":
+            for n, cname in zip(names, val["ok"].get("classes", [])):
+                if model and bad < 15 and cname != model_pascal.get(n):
+                    bad += 1
+                    res.mismatches.append(Mismatch("scope:operation-class", {"level": "scope", "scope": scope, "snake": snake, "names": [n]}, cname, model_pascal.get(n)))
+                sigp = out_ok(cname, False)
+                if sigp:
+                    _fail(res, sigp, "trigPascalBad" if tw.pascal_bad(n) else None, {"level": "scope", "scope": scope, "snake": snake, "names": [n]},
+                          f"operation {n!r}: result class is named {cname!r}")
         if scope_model:
             sm = scope_model[bi]
             if sm["names"] != [r[0] for r in rows] and bad < 15:
@@ -850,6 +875,8 @@ def judge_packages(ctx: Ctx, cases: List[Tuple[str, bool, str, str]], res: Resul
                 if out_ok(o, cfg[2]):
                     trig = trig or tw.scope_single_trigger(scope, snake, n)
             _fail(res, "broken-output", trig, inp, f"{scope} {a!r}/{b!r} snake={snake} become {py}: {v}: {val.get('cls', '')} {val.get('msg', '')}")
+        elif scope == "operation" and any(tw.pascal_bad(n) for n in (a, b)):
+            _fail(res, "broken-output", "trigPascalBad", inp, f"operation {a!r}/{b!r}: result class names {[_safe(utils_mod().str_to_pascal_case, n) for n in (a, b)]}: {v}: {val.get('cls', '')} {val.get('msg', '')}")
         else:
             res.count(f"package:{label}:{scope}:not-a-naming-matter")
     return verdicts
@@ -900,6 +927,9 @@ def replay_witness(ctx: Ctx, w: Dict[str, Any]) -> Tuple[bool, str]:
             again = real_process(u, out, cfg)
             return again != out, f"{w['n']!r} -> {out!r} -> {again!r}"
         return out_ok(out, cfg[2]) is not None, f"{w['n']!r} -> {out!r}"
+    if level == "pascal":
+        pa = _safe(u.str_to_pascal_case, w["n"])
+        return out_ok(pa, False) is not None, f"{w['n']!r} -> {pa!r}"
     if level == "pair":
         cfg = CFGS[w["cfg"]]
         oa, ob = real_process(u, w["a"], cfg), real_process(u, w["b"], cfg)
@@ -946,8 +976,15 @@ def replay_findings(ctx: Ctx, res: Result) -> None:
 # --------------------------------------------------------------------------------------------
 
 
+def budget3(ctx: Ctx, quick: int, boosted: int, thorough: int) -> int:
+    """quick tier / quick tier after a changed fingerprint or a broken tie / thorough tier"""
+    if ctx.tier == "thorough":
+        return thorough
+    return boosted if ctx.boost else quick
+
+
 def name_space(ctx: Ctx, res: Result) -> Tuple[List[str], int]:
-    bound = ctx.budget(6, 7)
+    bound = 7 if ctx.tier == "thorough" else 6
     exhaustive = list(words_upto(ALPHABET, bound))  # every word string, GraphQL names and the rest (digit-led, empty)
     res.extra["exhaustive_alphabet"] = ALPHABET
     res.extra["exhaustive_length_bound"] = bound
@@ -975,16 +1012,17 @@ def run(ctx: Ctx, st: Optional[LeanStatus]) -> Result:
     ctx.log(f"L1 exhaustive: {len(exhaustive)} names")
     specials = special_names()
     judge_names(ctx, st, specials, res, "keywords-and-reserved", groups)
-    rnd = random_names(ctx.sub_rng("names"), ctx.budget(20000, 200000))
+    rnd = random_names(ctx.sub_rng("names"), budget3(ctx, 20000, 60000, 200000))
     judge_names(ctx, st, rnd, res, "random-long", groups)
     judge_hooks(ctx, st, list(words_upto(ALPHABET, 3)) + specials[:: max(1, len(specials) // 300)], res)
     ctx.log(f"L1 specials {len(specials)}, random {len(rnd)}, hooks done")
     pool = [n for n in exhaustive if len(n) <= 5] + specials + rnd[:3000]
-    judge_groups(ctx, st, groups, res, ctx.sub_rng("pairs"), per_group=ctx.budget(3, 12), non_colliding=ctx.budget(20000, 200000), all_names=pool)
+    judge_groups(ctx, st, groups, res, ctx.sub_rng("pairs"), per_group=budget3(ctx, 3, 5, 12),
+                 non_colliding=budget3(ctx, 20000, 40000, 200000), all_names=pool)
     ctx.log("L1 pairs done")
-    judge_scopes(ctx, st, scope_batches(ctx.sub_rng("scopes"), pool, batch=ctx.budget(60, 120), count=ctx.budget(60, 400)), res)
+    judge_scopes(ctx, st, scope_batches(ctx.sub_rng("scopes"), pool, batch=budget3(ctx, 60, 100, 120), count=budget3(ctx, 60, 200, 400)), res)
     ctx.log("L2 scopes done")
-    verdicts = judge_packages(ctx, random_package_cases(ctx.sub_rng("packages"), pool, ctx.budget(40, 400)), res, "random")
+    verdicts = judge_packages(ctx, random_package_cases(ctx.sub_rng("packages"), pool, budget3(ctx, 40, 120, 400)), res, "random")
     res.extra["package_samples"] = verdicts[:6]
     ctx.log("L3 packages done")
     res.extra.pop("_failure_keys", None)
@@ -1008,10 +1046,10 @@ def search(ctx: Ctx) -> Result:
     judge_names(ctx, None, exhaustive, res, "search-exhaustive", groups)
     specials = special_names()
     judge_names(ctx, None, specials, res, "search-specials", groups)
-    rnd = random_names(ctx.sub_rng("search-names"), 100000)
+    rnd = random_names(ctx.sub_rng("search-names"), 60000)
     judge_names(ctx, None, rnd, res, "search-random", groups)
     pool = [n for n in exhaustive if len(n) <= 5] + specials + rnd[:3000]
-    judge_groups(ctx, None, groups, res, ctx.sub_rng("search-pairs"), per_group=12, non_colliding=1000, all_names=pool)
+    judge_groups(ctx, None, groups, res, ctx.sub_rng("search-pairs"), per_group=6, non_colliding=1000, all_names=pool)
     judge_scopes(ctx, None, scope_batches(ctx.sub_rng("search-scopes"), pool, batch=120, count=300), res)
     judge_packages(ctx, random_package_cases(ctx.sub_rng("search-packages"), pool, 150), res, "search")
     res.extra.pop("_failure_keys", None)
@@ -1025,7 +1063,7 @@ def replay(ctx: Ctx, payload: Dict[str, Any]) -> int:
         return 1
     res = Result()
     level = inp.get("level")
-    if level == "name":
+    if level in ("name", "pascal"):
         judge_names(ctx, None, [inp["n"]], res, "replay")
     elif level == "pair":
         g: List[Dict[str, List[str]]] = [dict() for _ in CFGS]
